@@ -244,6 +244,155 @@ class Extractor:
                         self.err(n, f'save() assigns to the solver: {ast.unparse(n)[:60]}')
         return {'entries': entries, 'touch': touch, 'line': dicts[0].lineno}
 
+    # ------------------------------------------------------------------ effects of the save path
+    PURE_METHODS = {'get_solution', 'state_dict', 'items', 'keys', 'values', 'copy', 'get', '__subclasses__', 'parameters',
+                    'named_parameters', 'modules', 'children'}
+    PURE_CALLEES = {'isinstance', 'len', 'int', 'float', 'str', 'repr', 'type', 'print', 'list', 'tuple', 'range', 'enumerate',
+                    'getattr', 'hasattr', 'open', 'json.dumps', 'dill.dump', 'zip', 'sorted', 'id', 'callable',
+                    'copy.deepcopy', 'deepcopy', 'copy.copy',                # return fresh objects
+                    'np.linspace', 'np.ones', 'np.zeros', 'np.array', 'np.asarray', 'np.sort', 'np.arange', 'np.meshgrid',
+                    'numpy.linspace', 'torch.linspace', 'torch.tensor', 'torch.ones', 'torch.zeros'}
+    PURE_PREFIXES = ('inspect.', 'os.path.')
+    PURE_ARG_METHODS = {'reshape', 'view', 'append', 'format', 'index', 'get'}     # <fresh object>.m(<owned value>)
+    PRIVATE_RNG = {'random.Random', 'random.SystemRandom', 'np.random.default_rng', 'np.random.RandomState', 'numpy.random.default_rng',
+                   'torch.Generator'}                                         # private streams: the global state is not touched
+    TORCH_RNG = {'torch.rand', 'torch.randn', 'torch.randint', 'torch.randperm', 'torch.manual_seed', 'torch.seed', 'torch.normal',
+                 'torch.rand_like', 'torch.randn_like', 'torch.set_rng_state', 'torch.bernoulli', 'torch.multinomial'}
+
+    def root_of(self, e):
+        """name an attribute / subscript chain hangs on; None if the chain starts at a call result or a literal"""
+        while isinstance(e, (ast.Attribute, ast.Subscript)):
+            e = e.value
+        return e.id if isinstance(e, ast.Name) else None
+
+    def chain_has_call(self, e):
+        while isinstance(e, (ast.Attribute, ast.Subscript)):
+            e = e.value
+        return not isinstance(e, ast.Name)
+
+    def owned_expr(self, e, aliases):
+        return isinstance(e, (ast.Name, ast.Attribute, ast.Subscript)) and not self.chain_has_call(e) and self.root_of(e) in aliases
+
+    def effects_of(self, fn, owned, kind, out, seen, mod_funcs):
+        """every call the function makes that may change state the solver owns (or a global RNG)"""
+        if (fn.name, tuple(sorted(owned))) in seen:
+            return
+        seen.add((fn.name, tuple(sorted(owned))))
+        aliases = set(owned)
+        for _ in range(3):                                   # names bound to solver-owned objects without a call in between
+            for n in ast.walk(fn):
+                if isinstance(n, ast.Assign) and self.owned_expr(n.value, aliases):
+                    for t in n.targets:
+                        if isinstance(t, ast.Name):
+                            aliases.add(t.id)
+                if isinstance(n, (ast.For, ast.comprehension)) and any(isinstance(x, ast.Name) and x.id in aliases for x in ast.walk(n.iter)):
+                    for x in ast.walk(n.target):
+                        if isinstance(x, ast.Name):
+                            aliases.add(x.id)
+        norm = lambda e: ast.unparse(e)
+        forked = set()                                       # nodes inside `with torch.random.fork_rng():` (torch RNG restored on exit)
+        for n in ast.walk(fn):
+            if isinstance(n, ast.With) and any(ast.unparse(i.context_expr) in ('torch.random.fork_rng()', 'torch.random.fork_rng(devices=[])')
+                                               for i in n.items):
+                for b in n.body:
+                    forked |= {id(x) for x in ast.walk(b)}
+        for n in ast.walk(fn):
+            # writes through an alias
+            if isinstance(n, (ast.Assign, ast.AugAssign, ast.Delete)):
+                tg = n.targets if not isinstance(n, ast.AugAssign) else [n.target]
+                for t in tg:
+                    if isinstance(t, (ast.Attribute, ast.Subscript)) and not self.chain_has_call(t) and self.root_of(t) in aliases:
+                        out.append((kind, f'other:write {norm(t)}', n.lineno))
+            if not isinstance(n, ast.Call):
+                continue
+            f, text = n.func, norm(n.func)
+            if isinstance(f, ast.Attribute) and not self.chain_has_call(f) and self.root_of(f) in aliases:
+                if f.attr in self.PURE_METHODS:
+                    if f.attr == 'get_solution' and any(kw.arg == 'copy' and not (isinstance(kw.value, ast.Constant) and kw.value.value is True)
+                                                        for kw in n.keywords) or (f.attr == 'get_solution' and n.args):
+                        out.append((kind, f'other:{text} without copy=True', n.lineno))
+                    continue
+                base = norm(f.value)
+                tag = None
+                for key in ('train', 'valid'):
+                    if f.attr == 'get_examples' and (base.endswith(f".generator['{key}']") or base.endswith(f"generator['{key}']")):
+                        tag = f'draw:{key}'
+                out.append((kind, tag or f'other:{text}()', n.lineno))
+                continue
+            if text in self.PRIVATE_RNG:
+                continue
+            if text.startswith('random.') or text in ('random',):
+                out.append((kind, 'pyrandom', n.lineno))
+                continue
+            if text.startswith('np.random.') or text.startswith('numpy.random.'):
+                out.append((kind, 'other:' + text + '()', n.lineno))
+                continue
+            if text in self.TORCH_RNG or (isinstance(f, ast.Attribute) and f.attr == 'get_examples'):
+                # torch's global RNG (directly, or through a generator that is not the solver's own, e.g. a deep copy)
+                if id(n) not in forked:
+                    out.append((kind, 'torchrng', n.lineno))
+                continue
+            own_args = [a for a in list(n.args) + [kw.value for kw in n.keywords] if self.owned_expr(a, aliases)]
+            if isinstance(f, ast.Name) and f.id in mod_funcs:
+                g = mod_funcs[f.id]
+                params = [p.arg for p in g.args.args]
+                sub = set()
+                for p, a in zip(params, n.args):
+                    if self.owned_expr(a, aliases):
+                        sub.add(p)
+                for kw in n.keywords:
+                    if kw.arg in params and self.owned_expr(kw.value, aliases):
+                        sub.add(kw.arg)
+                if sub:
+                    self.effects_of(g, sub, kind, out, seen, mod_funcs)
+                continue
+            if own_args and isinstance(f, ast.Attribute) and f.attr in self.PURE_ARG_METHODS and self.root_of(f) not in aliases:
+                continue
+            if own_args and not (text in self.PURE_CALLEES or text.startswith(self.PURE_PREFIXES)):
+                out.append((kind, f'other:passes {norm(own_args[0])} to {text}', n.lineno))
+
+    def save_effects(self):
+        fn = self.method('PretrainedSolver', 'save')
+        mod_funcs = {n.name: n for n in self.tree.body if isinstance(n, ast.FunctionDef)}
+        dumps = [n.lineno for n in ast.walk(fn) if isinstance(n, ast.Call) and ast.unparse(n.func) == 'dill.dump']
+        out, seen = [], set()
+        # calls guarded by a test on the class name belong to that solver kind
+        def walk(stmts, kind):
+            for s in stmts:
+                if isinstance(s, ast.If):
+                    ks = {k for k in KINDS if f"'{k}'" in ast.unparse(s.test)}
+                    walk(s.body, ks.pop() if len(ks) == 1 else kind)
+                    walk(s.orelse, kind)
+                    self.scan_stmt(ast.Expr(value=s.test), fn, kind, out, seen, mod_funcs)
+                elif isinstance(s, (ast.For, ast.While, ast.With, ast.Try)):
+                    for blk in ('body', 'orelse', 'finalbody'):
+                        walk(getattr(s, blk, []) or [], kind)
+                    for h in getattr(s, 'handlers', []):
+                        walk(h.body, kind)
+                    hdr = [getattr(s, 'iter', None), getattr(s, 'test', None)] + [i.context_expr for i in getattr(s, 'items', [])]
+                    for e in hdr:
+                        if e is not None:
+                            self.scan_stmt(ast.Expr(value=e), fn, kind, out, seen, mod_funcs)
+                else:
+                    self.scan_stmt(s, fn, kind, out, seen, mod_funcs)
+        walk(fn.body, 'all')
+        for kind, eff, line in out:
+            pass
+        helper_lines = [n.lineno for n in ast.walk(fn) if isinstance(n, ast.Call) and isinstance(n.func, ast.Name) and n.func.id in mod_funcs
+                        and any(self.owned_expr(a, {'self'}) for a in list(n.args) + [kw.value for kw in n.keywords])]
+        if dumps and any(l > min(dumps) for l in helper_lines):
+            self.err(fn, 'a helper is called after dill.dump: effects after the dump are not modelled')
+        res = []
+        for kind, eff, line in out:
+            if (kind, eff) not in res:
+                res.append((kind, eff))
+        return res
+
+    def scan_stmt(self, s, fn, kind, out, seen, mod_funcs):
+        """effects of one statement of save() itself: wrap it into a pseudo-function sharing save's aliases"""
+        pseudo = ast.FunctionDef(name=f'save@{getattr(s, "lineno", 0)}', args=fn.args, body=[s], decorator_list=[], lineno=getattr(s, 'lineno', 0))
+        self.effects_of(pseudo, {'self'}, kind, out, seen, mod_funcs)
+
     # ------------------------------------------------------------------ load (symbolic run under the default config)
     def prov(self, e, env):
         """provenance string of an expression"""
@@ -471,10 +620,11 @@ def coq_pairs(pairs, indent='    '):
 def extract(repo):
     ex = Extractor(repo)
     gc, sv, ld = ex.get_conditions(), ex.save(), ex.load()
+    effects = ex.save_effects()
     aliased = bool(gc['aliased'] and sv['touch']['called'] and sv['touch']['on_alias'])
     return {'aliased': aliased, 'writes_type': gc['writes_type'], 'replaces_fun': gc['replaces_fun'],
             'touch_before_dump': sv['touch']['before_dump'], 'save_dict': sv['entries'],
-            'ctors': ld['ctors'], 'restores': ld['restores'],
+            'ctors': ld['ctors'], 'restores': ld['restores'], 'effects': effects,
             'lines': {'get_conditions_dict': gc.get('dict_line'), 'save_dict': sv['line']}}
 
 
@@ -507,9 +657,16 @@ Definition load_ctor : list (string * list (string * string)) :=
 Definition load_restores : list (string * string) :=
    {coq_pairs(facts['restores'], '    ')}.
 
+(* every call on the save path (save itself, the get_sample_solution* preview helpers, get_generator,
+   get_networks, ...) that is not a pure read of solver-owned objects, per solver kind:
+   draw:train / draw:valid = <solver>.generator[..].get_examples(), pyrandom = the global `random`
+   module, other:.. = anything else (not modelled: the theorems then fail) *)
+Definition save_effects : list (string * string) :=
+   {coq_pairs(facts['effects'], '    ')}.
+
 Definition facts : srcfacts :=
   mkFacts get_conditions_aliased get_conditions_writes_type get_conditions_replaces_functions
-          get_conditions_before_dump save_dict load_ctor load_restores.
+          get_conditions_before_dump save_dict load_ctor load_restores save_effects.
 """
 
 
